@@ -22,6 +22,13 @@
 #include "Neigh/NeighUnique.hpp"
 #include "Simulation/CalcSimuTurningBands.hpp"
 #include "Stats/Classical.hpp"
+#include "Anamorphosis/AnamHermite.hpp"
+#include "Estimation/CalcSimpleInterpolation.hpp"
+#include "Stats/PCA.hpp"
+#include "Stats/Regression.hpp"
+#include "Variogram/VCloud.hpp"
+#include "Variogram/VMap.hpp"
+#include "geoslib_f.h"
 #include "Variogram/Vario.hpp"
 #include "Variogram/VarioParam.hpp"
 
@@ -285,6 +292,7 @@ VF_PART(simtub_masked_vs_removed)
     // an ACTIVE sample with an undefined coordinate makes the turning bands run (practically) for ever on the unchanged tree:
     // every such case costs a child time-out, so that pattern is enumerated on the smallest tables only
     if ((S.upat == 2 || S.upat == 4) && (S.n > 3 || ex != 0)) { C.skip(); C.outcome("undefined-coordinate:larger-tables-not-run(time-out cost)"); return; }
+    if (!C.thorough() && (S.upat == 4 || (S.upat == 2 && S.ilay != 0))) { C.skip(); C.outcome("undefined-coordinate:quick-tier-runs-one-pattern-and-layout(time-out cost)"); return; }
     auto run = [&](const Raw& data) {
       Obs o;
       DbP din(raw_to_db(data));
@@ -395,7 +403,9 @@ VF_PART(simtub_data_on_grid_nodes)
   Space sp;
   sp.axis("n", nmax - 2).axis("ndim", 2).axis("kind", 3).axis("mask", 1 << nmax).axis("tmask", NTM).axis("nbsimu", 3).axis("neigh", 2).axis("model", nmod);
   for_each_case(C, sp, [&](uint64_t id, const std::vector<int>& idx) {
-    int n = 3 + idx[0], ndim = idx[1] + 1, kind = idx[2], ktm = idx[4], nbsimu = idx[5] + 1, kneigh = idx[6], im = MODELS[idx[7]] % 100, nbtuba = MODELS[idx[7]] >= 100 ? 1 : 10;
+    int n = 3 + idx[0], ndim = idx[1] + 1, kind = idx[2], ktm = idx[4], nbsimu = idx[5] + 1;
+    if (!T && nbsimu == 2) return;   // quick: 1 and 3 simulations
+    int kneigh = idx[6], im = MODELS[idx[7]] % 100, nbtuba = MODELS[idx[7]] >= 100 ? 1 : 10;
     unsigned mask = (unsigned)idx[3];
     if (mask >= (1u << n)) return;
     if (ktm == 3 && n > 4) { C.skip(); return; }   // node of sample 4 carries a datum when n = 5
@@ -1070,6 +1080,203 @@ VF_PART(one_variable_requests_on_heterotopic_data)
           if (!d.empty()) C.violation("statsMono:one-variable-of-heterotopic-data", "dbStatisticsMono(names=" + std::string(form == 0 ? "{zv}" : form == 1 ? "{zv,other}" : "{other,zv}") + ", iso=" + std::to_string(form == 0) + "): " + d + what, kase);
         }
       }
+    }
+  });
+}
+
+
+// =====================================================================================================
+// the remaining public "operations that read samples": categorical family (facies count, proportions, indicator variograms),
+// multivariate / per-cell statistics, regression, per-column getters with useSel, code list, declustering, simple interpolators,
+// variogram cloud and map, PCA and Hermite anamorphosis fits. Same oracle: the call on the Db with masked / undefined samples
+// equals the call on the physically reduced Db, in SIZE and in values. Categorical menus put the extreme labels on samples that
+// the 2^n masks switch off. One forked child per case runs every operation (crash isolation, CPU limit).
+// =====================================================================================================
+namespace ot
+{
+using namespace c5;
+static const double FAC[3][6] = {{1, 2, 3, 4, 2, 1}, {4, 1, 2, 3, 1, 2}, {2, 4, 1, 4, 3, 1}};
+static const double CODE[6] = {1, 2, 3, 2, 5, 1};
+static bool g_valuesComplete = true;   // set per case: getters that read coordinates / codes only are judged when no VALUE is undefined
+struct Op { const char* name; std::function<Obs(const Raw& fac, const Raw& con, const VD& code)> run; };
+static void addVec(Obs& o, const std::string& nm, const VectorDouble& v) { o.add(nm + ".size", (double)v.size()); for (size_t i = 0; i < v.size(); i++) o.add(nm + "[" + std::to_string(i) + "]", v[i]); }
+static void addTable(Obs& o, const std::string& nm, const Table& t) { o.add(nm + ".nrows", t.getNRows()); o.add(nm + ".ncols", t.getNCols()); for (int i = 0; i < t.getNRows(); i++) for (int j = 0; j < t.getNCols(); j++) o.add(nm + "(" + std::to_string(i) + "," + std::to_string(j) + ")", t.getValue(i, j)); }
+static void addGrid(Obs& o, const std::string& nm, const DbGrid* g, int firstCol)
+{
+  if (!g) { o.err = 1; return; }
+  o.add(nm + ".nodes", g->getSampleNumber());
+  for (int ic = firstCol; ic < g->getColumnNumber(); ic++) for (int i = 0; i < g->getSampleNumber(); i++) o.add(nm + "." + g->getNameByColIdx(ic) + "[" + std::to_string(i) + "]", g->getValueByColIdx(i, ic));
+}
+static VD lastCols(Db* d, int ncolBefore, int iech) { VD v; for (int ic = ncolBefore; ic < d->getColumnNumber(); ic++) v.push_back(d->getValueByColIdx(iech, ic)); return v; }
+// interpolators: values written at the 4 targets (+ target 2 masked)
+template<class F> static Obs onTargets(const Raw& con, F call)
+{
+  Obs o;
+  Raw one = con; one.z.resize(1); one.nvar = 1;
+  DbP din(raw_to_db(one));
+  DbP dout(mkTargets(con.ndim, 0, VD({1, 1, 0, 1}), false));
+  int nc = dout->getColumnNumber();
+  o.err = call(din.get(), dout.get());
+  o.add("new columns", dout->getColumnNumber() - nc);
+  for (int t = 0; t < 4; t++) { VD v = lastCols(dout.get(), nc, t); for (size_t k = 0; k < v.size(); k++) o.add("target " + std::to_string(t) + " col " + std::to_string(k), v[k]); }
+  return o;
+}
+static std::vector<Op> ops()
+{
+  std::vector<Op> L;
+  L.push_back({"getFaciesNumber", [](const Raw& f, const Raw&, const VD&) { Obs o; DbP d(raw_to_db(f)); o.add("nfacies", d->getFaciesNumber()); return o; }});
+  L.push_back({"dbStatisticsFacies", [](const Raw& f, const Raw&, const VD&) { Obs o; DbP d(raw_to_db(f)); addVec(o, "proportions", dbStatisticsFacies(d.get())); return o; }});
+  L.push_back({"dbStatisticsIndicator", [](const Raw& f, const Raw&, const VD&) { Obs o; Raw g = f; for (auto& v : g.z[0]) if (!FFFF(v)) v = (v >= 3) ? 1. : 0.; DbP d(raw_to_db(g)); o.add("indicator mean", dbStatisticsIndicator(d.get())); return o; }});
+  L.push_back({"Vario::computeIndic", [](const Raw& f, const Raw&, const VD&) {
+    Obs o; DbP d(raw_to_db(f));
+    std::unique_ptr<VarioParam> vp(VarioParam::createOmniDirection(3, 1.5, 0.5));
+    std::unique_ptr<Vario> v(Vario::create(*vp));
+    o.err = v->computeIndic(d.get());
+    if (o.err) return o;
+    int nv = v->getVariableNumber();
+    o.add("number of indicator variables", nv);
+    for (int i = 0; i < nv; i++) for (int j = 0; j <= i; j++)
+    {
+      o.add("var(" + std::to_string(i) + "," + std::to_string(j) + ")", v->getVar(i, j));
+      for (int k = 0; k < v->getDirSize(0); k++)
+      {
+        int ad = v->getDirAddress(0, i, j, k, true, 0);
+        if (ad < 0) continue;
+        std::string l = "(" + std::to_string(i) + "," + std::to_string(j) + ") slot " + std::to_string(k);
+        o.add("sw" + l, v->getSwByIndex(0, ad)); o.add("gg" + l, v->getGgByIndex(0, ad));
+      }
+    }
+    return o; }});
+  // the means stored in the Vario are judged apart: on the unchanged tree Vario::_getStatistics loops 'iech < nvar' (number of
+  // VARIABLES) instead of the number of samples, so they depend on the table size whatever the masks
+  L.push_back({"Vario::computeIndic:getMeans", [](const Raw& f, const Raw&, const VD&) {
+    Obs o; DbP d(raw_to_db(f));
+    std::unique_ptr<VarioParam> vp(VarioParam::createOmniDirection(3, 1.5, 0.5));
+    std::unique_ptr<Vario> v(Vario::create(*vp));
+    o.err = v->computeIndic(d.get());
+    if (!o.err) addVec(o, "means", v->getMeans());
+    return o; }});
+  L.push_back({"dbStatisticsMulti", [](const Raw&, const Raw& c, const VD&) { Obs o; DbP d(raw_to_db(c)); for (const char* k : {"MEAN", "VAR", "NUM", "MINI", "MAXI"}) for (int mono = 0; mono < 2; mono++) addTable(o, std::string(k) + (mono ? ":mono" : ":multi"), dbStatisticsMulti(d.get(), {"z1", "z2"}, EStatOption::fromKey(k), mono)); return o; }});
+  L.push_back({"dbStatisticsPerCell", [](const Raw&, const Raw& c, const VD&) {
+    Obs o; DbP d(raw_to_db(c));
+    std::unique_ptr<DbGrid> g(DbGrid::create(VectorInt(c.ndim, 2), VectorDouble(c.ndim, 2.5), VectorDouble(c.ndim, -0.25)));
+    for (const char* k : {"NUM", "MEAN", "VAR", "MAXI"}) addVec(o, k, dbStatisticsPerCell(d.get(), g.get(), EStatOption::fromKey(k), "z1"));
+    addVec(o, "COV", dbStatisticsPerCell(d.get(), g.get(), EStatOption::fromKey("COV"), "z1", "z2"));
+    return o; }});
+  L.push_back({"regression", [](const Raw&, const Raw& c, const VD&) { Obs o; DbP d(raw_to_db(c)); Regression r = regression(d.get(), "z1", {"z2"}, 0, true); o.add("count", r.getCount()); addVec(o, "coeffs", r.getCoeffs()); o.add("variance", r.getVariance()); o.add("varres", r.getVarres()); return o; }});
+  L.push_back({"column-getters(useSel)", [](const Raw&, const Raw& c, const VD&) {
+    Obs o; DbP d(raw_to_db(c));
+    // getters that read coordinates only are judged when no VALUE is undefined (a sample without value keeps its location)
+    if (g_valuesComplete) { for (int k = 0; k < c.ndim; k++) addVec(o, "extrema x" + std::to_string(k + 1), d->getExtrema(k, true)); o.add("active samples", d->getSampleNumber(true)); o.add("extension diagonal", d->getExtensionDiagonal(true)); }
+    for (const char* z : {"z1", "z2"}) { o.add(std::string("min ") + z, d->getMinimum(z, true)); o.add(std::string("max ") + z, d->getMaximum(z, true)); o.add(std::string("mean ") + z, d->getMean(z, true)); o.add(std::string("var ") + z, d->getVariance(z, true)); o.add(std::string("stdv ") + z, d->getStdv(z, true)); addVec(o, std::string("range ") + z, d->getRange(z, true)); }
+    o.add("correlation", d->getCorrelation("z1", "z2", true));
+    return o; }});
+  L.push_back({"getCodeList", [](const Raw&, const Raw& c, const VD& code) { Obs o; if (!g_valuesComplete) return o; /* codes do not depend on values */ DbP d(raw_to_db(c)); d->addColumns(VectorDouble(code.begin(), code.end()), "code", ELoc::C); addVec(o, "codes", d->getCodeList()); return o; }});
+  L.push_back({"dbVarianceMatrix", [](const Raw&, const Raw& c, const VD&) { Obs o; DbP d(raw_to_db(c)); MatrixSquareSymmetric m = dbVarianceMatrix(d.get()); o.add("size", m.getNRows()); for (int i = 0; i < m.getNRows(); i++) for (int j = 0; j <= i; j++) o.add("V(" + std::to_string(i) + "," + std::to_string(j) + ")", m.getValue(i, j)); return o; }});
+  // declustering: weights of the kept samples (methods 1 = moving window count, 2 = kriging weight of the mean)
+  for (int method = 1; method <= 2; method++)
+    L.push_back({method == 1 ? "declustering-method1" : "declustering-method2", [method](const Raw&, const Raw& c, const VD&) {
+      Obs o; Raw one = c; one.z.resize(1); one.nvar = 1; DbP d(raw_to_db(one));
+      ModelP m(make_model(c.ndim, 1, 1));
+      std::unique_ptr<NeighUnique> nu(NeighUnique::create());
+      int nc = d->getColumnNumber();
+      o.err = declustering(d.get(), m.get(), method, nu.get(), nullptr, VectorDouble(c.ndim, 1.5));
+      std::vector<int> keep = keepOf(one);
+      for (int i = 0; i < one.n; i++)
+      {
+        VD v = lastCols(d.get(), nc, i);
+        if (keep[i]) for (size_t k = 0; k < v.size(); k++) o.add("weight of kept sample (original rank " + std::to_string(i) + ")", v[k]);
+      }
+      return o; }});
+  L.push_back({"inverseDistance", [](const Raw&, const Raw& c, const VD&) { return onTargets(c, [](Db* a, Db* b) { return inverseDistance(a, b, 2., true, TEST); }); }});
+  L.push_back({"inverseDistance(dmax)", [](const Raw&, const Raw& c, const VD&) { return onTargets(c, [](Db* a, Db* b) { return inverseDistance(a, b, 1., true, 2.25); }); }});
+  L.push_back({"nearestNeighbor", [](const Raw&, const Raw& c, const VD&) { return onTargets(c, [](Db* a, Db* b) { return nearestNeighbor(a, b); }); }});
+  L.push_back({"movingAverage", [](const Raw&, const Raw& c, const VD&) { return onTargets(c, [](Db* a, Db* b) { std::unique_ptr<NeighMoving> nm(NeighMoving::create(false, 2, TEST)); return movingAverage(a, b, nm.get()); }); }});
+  L.push_back({"movingMedian", [](const Raw&, const Raw& c, const VD&) { return onTargets(c, [](Db* a, Db* b) { std::unique_ptr<NeighMoving> nm(NeighMoving::create(false, 3, TEST)); return movingMedian(a, b, nm.get()); }); }});
+  L.push_back({"leastSquares", [](const Raw&, const Raw& c, const VD&) { return onTargets(c, [](Db* a, Db* b) { std::unique_ptr<NeighUnique> nu(NeighUnique::create()); return leastSquares(a, b, nu.get(), 0); }); }});
+  L.push_back({"db_vcloud", [](const Raw&, const Raw& c, const VD&) {
+    Obs o; Raw one = c; one.z.resize(1); one.nvar = 1; DbP d(raw_to_db(one));
+    std::unique_ptr<VarioParam> vp(VarioParam::createOmniDirection(3, 1.5, 0.5));
+    std::unique_ptr<DbGrid> g(db_vcloud(d.get(), vp.get(), 8., 40., 4, 4));
+    addGrid(o, "cloud", g.get(), 0);
+    return o; }});
+  L.push_back({"db_vmap", [](const Raw&, const Raw& c, const VD&) {
+    Obs o; if (c.ndim != 2) return o;
+    Raw one = c; one.z.resize(1); one.nvar = 1; DbP d(raw_to_db(one));
+    std::unique_ptr<DbGrid> g(db_vmap(d.get(), ECalcVario::VARIOGRAM, VectorInt({2, 2}), VectorDouble({1.5, 1.5})));
+    addGrid(o, "vmap", g.get(), 0);
+    return o; }});
+  L.push_back({"PCA::pca_compute", [](const Raw&, const Raw& c, const VD&) { Obs o; DbP d(raw_to_db(c)); PCA p; o.err = p.pca_compute(d.get()); if (o.err) return o; addVec(o, "means", p.getMeans()); addVec(o, "sigmas", p.getSigmas()); addVec(o, "eigenvalues", p.getEigVals()); return o; }});
+  L.push_back({"AnamHermite::fit", [](const Raw&, const Raw& c, const VD&) { Obs o; DbP d(raw_to_db(c)); AnamHermite a(3); o.err = a.fit(d.get(), "z1"); if (o.err) return o; addVec(o, "psi", a.getPsiHns()); return o; }});
+  return L;
+}
+}  // namespace ot
+
+VF_PART(other_sample_readers_masked_vs_removed)
+{
+  using namespace c5;
+  using namespace ot;
+  bool T = C.thorough();
+  int nmax = T ? 6 : 5;
+  static std::vector<Op> OPS = ops();
+  Space sp;
+  sp.axis("n", nmax - 3).axis("ndim", 2).axis("facies-menu", 3).axis("upat", 2).axis("mask", 1 << nmax);
+  for_each_case(C, sp, [&](uint64_t id, const std::vector<int>& idx) {
+    int n = 4 + idx[0], ndim = idx[1] + 1, kf = idx[2], upat = idx[3];
+    unsigned mask = (unsigned)idx[4];
+    if (mask >= (1u << n)) return;
+    std::string kase = std::to_string(id);
+    set_ndim(ndim);
+    Raw fac = make_raw(ndim, 1, 0, n), con = make_raw(ndim, 2, 0, n);
+    for (int i = 0; i < n; i++) fac.z[0][i] = FAC[kf][i];
+    if (upat) { fac.z[0][1] = TEST; con.z[0][1] = TEST; con.z[1][1] = TEST; }
+    VD sel(n); for (int i = 0; i < n; i++) sel[i] = (mask >> i) & 1;
+    fac.sel = sel; con.sel = sel;
+    std::vector<int> keep = keepOf(con);
+    int nkeep = 0; for (int k : keep) nkeep += k;
+    if (nkeep < 3) { C.skip(); C.outcome("excluded:fewer-than-3-usable-samples"); return; }
+    Raw facR = reduce_raw(fac, keep), conR = reduce_raw(con, keep);
+    VD code(CODE, CODE + n), codeR; for (int i = 0; i < n; i++) if (keep[i]) codeR.push_back(code[i]);
+    // does the mask hide the only sample(s) carrying the largest facies label / an extreme of z1 ?
+    double fmaxAll = 0, fmaxAct = 0; for (int i = 0; i < n; i++) { if (!FFFF(fac.z[0][i])) fmaxAll = std::max(fmaxAll, fac.z[0][i]); if (keep[i]) fmaxAct = std::max(fmaxAct, fac.z[0][i]); }
+    bool extremeHidden = fmaxAct < fmaxAll;
+    if (extremeHidden) C.outcome("stimulus:largest-facies-label-only-on-removed-samples");
+    std::string what = " ; facies data=" + raw_str(fac) + " continuous data=" + raw_str(con) + " codes=" + vstr(code);
+    if (id % 577 == 9) C.sample("{\"id\":" + kase + ",\"facies\":" + raw_str(fac) + ",\"continuous\":" + raw_str(con) + "}");
+    g_valuesComplete = (upat == 0);
+    ChildResult cr = run_child([&](int wfd) {
+      limit_child_cpu(5);
+      for (auto& op : OPS)
+      {
+        child_write(wfd, std::string("B|") + op.name + "\n");
+        Obs a = op.run(fac, con, code), b = op.run(facR, conR, codeR);
+        double worst = 0;
+        std::string d = cmpObs(a, b, 1e-10, worst);
+        for (auto& ch : d) if (ch == '\n') ch = ' ';
+        child_write(wfd, std::string("R|") + op.name + "|" + std::to_string(a.val.size()) + "|" + decade(worst) + "|" + d + "\n");
+      }
+      return 0;
+    }, 120.);
+    std::stringstream ss(cr.data);
+    std::string line, begun;
+    bool reduced = nkeep < n;
+    while (std::getline(ss, line))
+    {
+      if (line.size() < 3) continue;
+      if (line[0] == 'B') { begun = line.substr(2); continue; }
+      size_t p1 = line.find('|', 2), p2 = line.find('|', p1 + 1), p3 = line.find('|', p2 + 1);
+      std::string op = line.substr(2, p1 - 2), nres = line.substr(p1 + 1, p2 - p1 - 1), dec = line.substr(p2 + 1, p3 - p2 - 1), d = line.substr(p3 + 1);
+      begun.clear();
+      C.eval();
+      C.outcome(op + (nres == "0" ? ":NO-RESULT" : reduced ? ":some-removed:" : ":nothing-removed:") + (nres == "0" ? "" : d.empty() ? "same" : "DIFFERENT"));
+      if (reduced) C.nontrivial(Hash().u(id).s(op).h);
+      if (!d.empty()) C.violation(op == "Vario::computeIndic:getMeans" ? std::string("Vario::getMeans:computed-over-the-first-nvar-samples") : op + ":differs-from-removed" + (upat ? ":undefined-value" : ":selection"), op + ": " + d + what, kase);
+    }
+    if (!cr.clean() || cr.code != 0)
+    {
+      C.eval();
+      C.outcome("child:" + cr.describe() + " in " + begun);
+      C.violation((begun.empty() ? std::string("other-readers") : begun) + ":" + (child_hung(cr) ? "does-not-return" : "crash"), begun + " ends with " + cr.describe() + what, kase);
     }
   });
 }
